@@ -19,7 +19,7 @@ func init() {
 		Rule: "(in) generated sections of the six table types (all table_id variants, 12..1024+ bytes, alone and in multi-section units, on their PIDs; PMT behind a PAT) under corruption: every single-bit flip of every " +
 			"unit byte (exhaustive per unit), random byte substitutions, bursts ≤ 32 bits, section_length changes, truncation/extension, CRC field overwrites; the demuxer's outcome is compared with the independent " +
 			"reference decoder's accept/reject decision and decoding of the same bytes. (out) Muxer histories with ES descriptors of every supported tag and size that fits one packet (struct Length right/0/wrong) and " +
-			"writePSIData on larger PAT/PMT contents: section_length, CRC_32 and trailing stuffing judged by the reference. distinct = hash of the corrupted unit / output; non-trivial = a corruption was applied or a section emitted",
+			"writePSIData on larger PAT/PMT contents: section_length, CRC_32 and trailing stuffing judged by the reference; every PAT/PMT packet of long Muxer sessions (hundreds of emissions of unchanged tables, stage endurance) decoded as well. distinct = hash of the corrupted unit / output; non-trivial = a corruption was applied or a section emitted",
 		Assumptions: []string{"error or nothing is always an acceptable outcome for a corrupted unit; a delivered table must be one the reference accepts from the same bytes, equal field for field and in order",
 			"the reference is refts/psi.go with the bit-serial CRC of refts/crc.go"},
 		Shards: 32,
@@ -236,6 +236,9 @@ func maxSizeSections(c *mon.Ctx) {
 }
 
 func runC09(c *mon.Ctx) {
+	enduranceSessions(c, func(stage string, i int64, shape string, hr *HistRun) {
+		checkMuxedTables(c, stage, i, hr)
+	})
 	maxSizeSections(c)
 	// (in) exhaustive bit flips
 	nu := c.Pick(216, 20000)
@@ -498,33 +501,47 @@ func muxSections(c *mon.Ctx, idx int64, r *rand.Rand) {
 		ops = append(ops, HOp{Kind: "remove", PID: uint16(0x40 + nes - 1)}, HOp{Kind: "tables"})
 	}
 	hr := runHistory(ops, 10)
+	if !checkMuxedTables(c, "out", idx, hr) {
+		return
+	}
+	c.Case(mon.HashBytes("c09o", hr.Out), len(hr.Out) > 0)
+}
+
+// checkMuxedTables decodes every PAT / PMT packet of a Muxer session with the reference decoder: section_length and CRC_32 must agree
+// with the bytes written.
+func checkMuxedTables(c *mon.Ctx, stage string, idx int64, hr *HistRun) bool {
 	for k, cl := range hr.Calls {
 		if cl.Panic != "" {
-			c.Violate("C09/out/panic", "out", idx, cl.Panic, nil)
-			return
+			c.Violate("C09/out/panic", stage, idx, cl.Panic, nil)
+			return false
 		}
 		if cl.Op.Kind == "tables" && cl.Err != nil {
 			c.Count("muxer_table_emission_rejected")
 			continue
 		}
 		for o := cl.Start; o+188 <= cl.End; o += 188 {
+			if pid := uint16(hr.Out[o+1]&0x1f)<<8 | uint16(hr.Out[o+2]); pid != 0 && pid != 0x1000 {
+				continue
+			}
 			p, err := refts.DecodePacket(hr.Out[o : o+188])
 			if err != nil {
-				c.Violate("C09/out/nonconformant-packet", "out", idx, err.Error(), nil)
-				return
-			}
-			if p.Header.PID != 0 && p.Header.PID != 0x1000 {
-				continue
+				c.Violate("C09/out/nonconformant-packet", stage, idx, err.Error(), nil)
+				return false
 			}
 			cls := "PAT"
 			if p.Header.PID == 0x1000 {
 				cls = "PMT"
 			}
-			if !checkEmittedSections(c, "out", idx, p.Payload, 1, cls, map[string]any{"call": k, "packet": mon.Hex(hr.Out[o:o+188], 188)}) {
-				return
+			if !p.Header.HasPayload || !p.Header.PayloadUnitStartIndicator {
+				c.Violate("C09/out/table-packet-carries-no-section:"+cls, stage, idx, fmt.Sprintf("call %d: the packet the Muxer emitted on PID %#x has payload=%v payload_unit_start=%v: no section a decoder accepts", k, p.Header.PID, p.Header.HasPayload, p.Header.PayloadUnitStartIndicator),
+					map[string]any{"call": k, "packet": mon.Hex(hr.Out[o:o+188], 188)})
+				return false
+			}
+			if !checkEmittedSections(c, stage, idx, p.Payload, 1, cls, map[string]any{"call": k, "packet": mon.Hex(hr.Out[o:o+188], 188)}) {
+				return false
 			}
 			c.Count("muxer_sections_checked")
 		}
 	}
-	c.Case(mon.HashBytes("c09o", hr.Out), len(hr.Out) > 0)
+	return true
 }
